@@ -165,8 +165,37 @@ def in_body_of(ctx, fi, node, container, fields=("body",)) -> bool:
     return False
 
 
+def _fact_env(ctx, fi):
+    """Single-assignment locals that may be inlined into fact texts: derived values only (no literals / containers)."""
+    env = {}
+    for k, v in ctx.env(fi).items():
+        if isinstance(v, (ast.Call, ast.Attribute, ast.BinOp, ast.Compare, ast.BoolOp, ast.UnaryOp, ast.Subscript, ast.Name)):
+            env[k] = v
+    return env
+
+
+def expand_facts(ctx, fi, facts):
+    """Add, for every fact, the form with hoisted locals inlined (so `exists = os.path.isfile(p); if not exists:` is
+    recognised like `if not os.path.isfile(p):`), re-decomposed into atoms."""
+    env = _fact_env(ctx, fi)
+    if not env:
+        return facts
+    out = set(facts)
+    for (text, pol) in facts:
+        try:
+            t = ast.parse(text, mode="eval").body
+        except SyntaxError:
+            continue
+        if not any(isinstance(x, ast.Name) and x.id in env for x in ast.walk(t)):
+            continue
+        t2 = inline(t, env)
+        for a in cond_atoms(t2, pol):
+            out.add(a)
+    return frozenset(out) if isinstance(facts, frozenset) else (list(out) if isinstance(facts, list) else out)
+
+
 def facts_at(ctx, fi, node, kinds="nx"):
-    """Must-facts holding at (every CFG copy of) the statement containing node."""
+    """Must-facts holding at (every CFG copy of) the statement containing node (hoisted locals also in inlined form)."""
     IN = ctx.facts(fi, kinds)
     ids = ctx.node_ids(fi, node)
     sets = [IN[i] for i in ids if IN[i] is not None]
@@ -175,7 +204,7 @@ def facts_at(ctx, fi, node, kinds="nx"):
     res = sets[0]
     for s in sets[1:]:
         res = res & s
-    return res
+    return expand_facts(ctx, fi, frozenset(res))
 
 
 def has_fact(facts, text, pol) -> bool:
@@ -361,3 +390,57 @@ def inline_at(ctx, fi, expr, at_node, depth=4):
             return node
 
     return T(depth).visit(_copy.deepcopy(expr))
+
+
+def exclude_predicate_verdict(ctx, fi, fact_text, name_var="fn"):
+    """Classify the exclusion predicate guarding a copy in the file walk.
+    -> ('ok'|'viol'|'inc', message).  The documented semantics: a file is excluded iff some pattern re.match()es its *name*."""
+    try:
+        t = ast.parse(fact_text, mode="eval").body
+    except SyntaxError:
+        return "inc", "exclude test does not parse"
+    subjects = []  # (api, subject expression text)
+    helper_calls = []
+    for n in ast.walk(t):
+        if isinstance(n, ast.Call):
+            d = dotted(n.func)
+            if d and d.startswith("re.") and len(n.args) >= 2:
+                subjects.append((d, canon(n.args[1]), None))
+            elif isinstance(n.func, ast.Name):
+                tg, ext = ctx.calls.resolve_call(fi, n)
+                if tg:
+                    helper_calls.append((n, tg[0]))
+    for call, h in helper_calls:
+        # map parameters of h to the argument expressions
+        pmap = {}
+        for p, a in zip(h.params, call.args):
+            pmap[p] = canon(a)
+        for k in call.keywords:
+            if k.arg:
+                pmap[k.arg] = canon(k.value)
+        henv = ctx.env(h)
+        found = False
+        for n in body_nodes(h):
+            if isinstance(n, ast.Call):
+                d = dotted(n.func)
+                if d and d.startswith("re.") and len(n.args) >= 2:
+                    found = True
+                    subj = inline(n.args[1], henv)
+                    if isinstance(subj, ast.Name) and subj.id in pmap:
+                        subjects.append((d, pmap[subj.id], h))
+                    else:
+                        subjects.append((d, canon(subj), h))
+        if not found:
+            return "inc", f"helper {h.name} contains no regular-expression match"
+    if not subjects:
+        return "inc", "no regular-expression match in the exclude test"
+    bad = [(api, s, h) for (api, s, h) in subjects if s != name_var]
+    if bad:
+        api, s, h = bad[0]
+        where = f" (in {h.name})" if h else ""
+        return "viol", (f"exclude patterns are also matched against `{s}`{where}, not only against the file name: files whose own name matches no pattern "
+                        "are skipped (never transferred) when something else on their path matches")
+    apis = {api for (api, s, h) in subjects}
+    if apis <= {"re.match"}:
+        return "ok", "a name is excluded iff some pattern re.match()es the file name"
+    return "inc", f"exclude patterns are applied with {sorted(apis)}"
